@@ -68,9 +68,12 @@ def read_line(tid, op, store_name, listed, ref, call, id_=0, filters=(), nav=Non
         exc = "none"
     except Exception as e:  # noqa
         out, exc = [], type(e).__name__
+        if os.environ.get("VERIF_DEBUG"):
+            import traceback
+            traceback.print_exc()
     filters_kept = before == [sorted(map(repr, fs)) for fs in WATCH]
     ans, same = D.answer(out, ref)
-    line = {"tid": tid, "op": op, "store": store_name, "S": list(listed), "id": id_, "filters": [dict(f, val=sorted(f["val"]) if f["op"] == "in" else f["val"]) for f in filters],
+    line = {"tid": tid, "op": op, "store": store_name, "S": list(listed), "id": id_, "filters": [dict(f, val=sorted(f["val"]) if f["op"] in ("in", "=seq", "!=seq") else f["val"]) for f in filters],
             "nav": nav or {"rtype": 0, "src_only": False, "tgt_only": False}, "obj": obj or D.mk(21, 1), "ans": ans, "same_content": same, "exc": exc, "filters_kept": filters_kept}
     if extra:
         line.update(extra)
@@ -90,6 +93,9 @@ def rand_filter(rng, recs):
     if prop in ("nosuch",):
         ops = ["=", "!="]
     op = rng.choice(ops)
+    if prop in ("type", "id") and rng.random() < 0.2:
+        # = / != handed a whole list on a scalar property (only "in" looks inside a list)
+        return flt(prop, rng.choice(["=seq", "!=seq", "!=seq"]), sorted(rng.sample(dom, rng.randint(1, min(3, len(dom))))))
     if op == "in":
         return flt(prop, op, sorted(rng.sample(dom, rng.randint(0, min(3, len(dom))))))
     return flt(prop, op, rng.choice(dom))
@@ -267,6 +273,10 @@ def pipeline(chk):
         pair = Pair(chk.scratch)
         dirs = []
         D.UPPER_TYPES.clear()
+        D.V7_TYPES.clear()
+        if h % 3 == 2:       # every identifier of one or two (2.1) types is a UUID of a version the RFC added later (not identities: 2.0 content refers to them)
+            cands = sorted({r["type"] for r in recs} - {D.T_IDENTITY})
+            D.V7_TYPES.update(rng.sample(cands, min(len(cands), rng.choice([1, 2]))))
         if h % 3 == 1:       # every identifier of one or two types spelled with upper-case hex letters
             D.UPPER_TYPES.update(rng.sample(sorted({r["type"] for r in recs}), min(len({r["type"] for r in recs}), rng.choice([1, 2]))))
         try:
@@ -423,6 +433,42 @@ def pipeline(chk):
                 lines.append(read_line(tid, "cquery", "composite-after-parent", union, ref, lambda: comp.query(), extra={"member_order": order, "routes": {"nested": 3}}))
                 if parent is outer:
                     lines.append(read_line(tid, "cquery", parent_name, union, ref, lambda: parent.query(), extra={"member_order": order, "routes": {"nested": 4}}))
+            # a composite with filters of its own, nested next to a sibling that is attached after it, under a parent with a filter: the sibling answers under the parent's
+            # filter only; the nested composite under both.  (The sibling holds objects the nested composite does not have, so the two parts of the answer can be told apart.)
+            sib_recs = [D.mk(i, v, name=rng.choice([1, 2, 3])) for i in (12, 17, 23) for v in rng.sample([1, 2, 11], 2)]
+            sib = MemorySource([D.in_form("dict", [D.build(r)]) for r in sib_recs], allow_custom=True)
+            sib_ids = {D.sid(r["id"]) for r in sib_recs}
+            sref = {(r["id"], r["ver"]): D.build(r) for r in sib_recs}
+            def no_ts():       # (timestamp filters meet the recorded finding about dictionary-kept objects, which would hide what this scenario is about)
+                while True:
+                    f = rand_filter(rng, recs + sib_recs)
+                    if f["prop"] != "modified":
+                        return f
+            f_in, f_out = [no_ts()], [no_ts()]
+            comp.filters.add([D.conc_filter(f, rng) for f in f_in])
+            outer2 = CompositeDataSource()
+            outer2.add_data_sources([comp, sib])
+            outer2.filters.add([D.conc_filter(f, rng) for f in f_out])
+            watch(outer2, sib)
+            try:
+                for rep in range(2):
+                    lines.append(read_line(tid, "cquery", "sibling-after-filtered-nested-composite", sib_recs, sref, lambda: [o for o in outer2.query() if o["id"] in sib_ids],
+                                           filters=f_out, extra={"member_order": order, "routes": {"nested": 5, "composite": 1}}))
+                    lines.append(read_line(tid, "cquery", "filtered-nested-composite-before-sibling", union, ref, lambda: [o for o in outer2.query() if o["id"] not in sib_ids],
+                                           filters=f_in + f_out, extra={"member_order": order, "routes": {"nested": 6, "composite": 2}}))
+            finally:
+                comp.filters.remove([f for f in list(comp.filters)])
+                outer2.filters.remove([f for f in list(outer2.filters)])
+            # an environment given both a store and a source answers from both
+            part_store = stix2.MemoryStore([D.in_form("dict", [D.build(r)]) for r in sib_recs], allow_custom=True)
+            env3 = Environment(store=part_store, source=comp)
+            both = list(sib_recs) + [r for r in union if r not in sib_recs]
+            bref = dict(ref)
+            bref.update(sref)
+            lines.append(read_line(tid, "cquery", "environment(store+source)", both, bref, lambda: env3.query(), extra={"member_order": order, "routes": {"store_and_source": 1}}))
+            for id_ in [sib_recs[0]["id"]] + ids[:2]:
+                lines.append(read_line(tid, "cget", "environment(store+source)", both, bref, lambda: env3.get(D.sid(id_)), id_=id_, extra={"member_order": order}))
+                lines.append(read_line(tid, "call_versions", "environment(store+source)", both, bref, lambda: env3.all_versions(D.sid(id_)), id_=id_, extra={"member_order": order}))
             # navigation through a single store, the composite and the environment
             sdo = [r for r in recs if r["type"] not in (D.T_FILE, D.T_REL, D.T_UNREG)]
             for front_name, front, S, rf in (("memory", pair.mem, pair.listed["mem"], pair.ref), ("fs", pair.fs, pair.listed["fs"], pair.ref),
@@ -440,6 +486,7 @@ def pipeline(chk):
                     lines.append(read_line(tid, "creator_of", front_name, S, rf, lambda: front.creator_of(D.build(r)), obj=r))
         finally:
             D.UPPER_TYPES.clear()
+            D.V7_TYPES.clear()
             pair.close()
             for d in dirs:
                 shutil.rmtree(d, ignore_errors=True)
@@ -478,7 +525,7 @@ def validate(chk, lines, prefix):
     for ln in lines:
         chk.case(sig(ln))
     rejected = set()
-    keep = ("tid", "op", "store", "S", "id", "filters", "nav", "obj", "ans", "same_content", "exc")
+    keep = ("tid", "op", "store", "S", "id", "filters", "nav", "obj", "ans", "same_content", "exc", "filters_kept")
     slim = [{k: ln[k] for k in keep} for ln in lines]
     for i in range(0, len(slim), 4000):
         part = slim[i:i + 4000]
